@@ -111,6 +111,14 @@ Theorem C08_method_updates_receiver_only : forall ct reg st o m args st' r,
   gmeth (impl false) ct st (VObj o) m args = Ok (st', r) -> unchanged_outside reg (o_id o) st st'.
 Proof. exact method_updates_receiver_only. Qed.
 Print Assumptions C08_method_updates_receiver_only.
+(* a read-only method (an expression over a field: -self.f, self.f + self.f, self.f > 0, !self.f, self.f + "")
+   leaves the whole state unchanged, the receiver included *)
+Check readonly_method_changes_nothing : forall ct st self k f st' r,
+  gmeth (impl false) ct st self (MRo k f) [] = Ok (st', r) -> st' = st.
+Theorem C08_readonly_method_changes_nothing : forall ct st self k f st' r,
+  gmeth (impl false) ct st self (MRo k f) [] = Ok (st', r) -> st' = st.
+Proof. exact readonly_method_changes_nothing. Qed.
+Print Assumptions C08_readonly_method_changes_nothing.
 Check bump_updates_argument_only : forall ct reg st o f other d st' r,
   inv reg st -> reg (o_id other) = Some other ->
   gmeth (impl false) ct st (VObj o) (MBump f) [VObj other; d] = Ok (st', r) -> unchanged_outside reg (o_id other) st st'.
